@@ -1072,6 +1072,9 @@ def _shadow_policies(ctx, live):
     return pol
 
 
+SHADOW_CALL_BUDGET_S = int(os.environ.get("VERIF_SHADOW_CALL_S", "8"))
+
+
 def _shadow_invocations(ctx, live, sim_time, workload, worker_pools):
     import random as _random
     state = _random.getstate()
@@ -1082,10 +1085,22 @@ def _shadow_invocations(ctx, live, sim_time, workload, worker_pools):
             if (name == "Z3" and noff > 4) or (name != "Z3" and not name.startswith(("EDF", "FIFO", "LSF")) and noff > 8):
                 ctx.count("shadow_skipped_large")
                 continue
+            slow = ctx.__dict__.setdefault("_shadow_slow", {})
+            if slow.get(name, 0) >= 2:
+                ctx.count("shadow_skipped_slow")  # this planner was cut short twice on this world's states already
+                continue
+            budget = common.call_budget(SHADOW_CALL_BUDGET_S)
             try:
-                pol.schedule(sim_time, workload, worker_pools)
+                with budget:
+                    pol.schedule(sim_time, workload, worker_pools)
             except BaseException as e:  # noqa
-                if isinstance(e, (KeyboardInterrupt, Watchdog, WallClock)):
+                if isinstance(e, common.SolverAborted) and budget.fired:
+                    # this one shadow solve took too long (wall-clock: tooling, never a verdict); the run goes on
+                    ctx.current_schedule_call = None
+                    ctx.count("shadow_calls_cut_short")
+                    slow[name] = slow.get(name, 0) + 1
+                    continue
+                if isinstance(e, (KeyboardInterrupt, Watchdog, WallClock, common.SolverAborted)):
                     raise
                 ctx.current_schedule_call = None
                 if (type(e).__name__ == "GurobiError" and "size-limited" in str(e)) or type(e).__name__ == "DOcplexLimitsExceeded":
@@ -1113,7 +1128,7 @@ def _frontier_probes(ctx, sim, sim_time):
     try:
         sim._workload.get_releasable_tasks()  # judged by the releasable hooks (read-only)
     except Exception as e:
-        if isinstance(e, (Watchdog, WallClock)):
+        if isinstance(e, (Watchdog, WallClock, common.SolverAborted)):
             raise
         ctx.violate("C18", f"releasable_raises:{type(e).__name__}", str(e)[:200])
     ctx.in_probe = True
@@ -1131,7 +1146,7 @@ def _frontier_probes(ctx, sim, sim_time):
                             res = wlobj.get_schedulable_tasks(sim_time, EventTime(la, EventTime.Unit.US), False, retract,
                                                                sim._worker_pools, pol, 0.5, rtg)
                         except Exception as e:
-                            if isinstance(e, (Watchdog, WallClock)):
+                            if isinstance(e, (Watchdog, WallClock, common.SolverAborted)):
                                 raise  # the harness' own alarms are not the frontier's exceptions
                             ctx.violate("C18", f"frontier_raises:{type(e).__name__}",
                                         f"get_schedulable_tasks(t={now}, lookahead={la}, retract={retract}, rtg={rtg}, {pol.name}): {e}")
@@ -1310,6 +1325,7 @@ def _placement_attempt_after(ctx, event):
 # running a world
 # ---------------------------------------------------------------------------
 def _alarm(signum, frame):
+    common.alarm_fired()  # a raise inside a solver callback is swallowed: the solver guard then ends the solve (common.py)
     raise WallClock("wall-clock alarm")
 
 
@@ -1318,6 +1334,7 @@ def run_world(world, workdir, opts=None, extra_install=None, wall_s=None):
     global _ACTIVE
     from absl import flags as absl_flags
     install()
+    common.install_solver_guard()
     if extra_install is not None:
         extra_install()
     import main as repo_main
@@ -1357,7 +1374,7 @@ def run_world(world, workdir, opts=None, extra_install=None, wall_s=None):
     except Watchdog as e:
         ctx.status = "watchdog"
         ctx.exception = str(e)
-    except WallClock as e:
+    except (WallClock, common.SolverAborted) as e:
         ctx.status = "wallclock"
         ctx.exception = str(e)
     except common.MonitorViolation as e:
@@ -1379,6 +1396,7 @@ def run_world(world, workdir, opts=None, extra_install=None, wall_s=None):
     finally:
         signal.alarm(0)
         signal.signal(signal.SIGALRM, old)
+        common.alarm_cleared()
         _ACTIVE = None
         for h in handlers:
             try:
